@@ -27,8 +27,15 @@
    VARIANTS.  [v_atomic]: the actor stamps / zeroes the tick inside UpdateState / ResetState and the
    clients no longer send SetProvisionFinished from those two paths (patches/fix-C16-atomic-tick.diff).
    [v_guard]: the query answers finished only when the tick is non-zero
-   (patches/fix-C16-zero-tick-not-finished.diff).  [current_code] is the pinned tree, [repaired_code]
-   has both repairs.  The check selects the variant the code under test exhibits.
+   (patches/fix-C16-zero-tick-not-finished.diff).  [v_lock]: write_provision_state holds a process-wide
+   mutex from before the open of status.tag.tmp until after the rename
+   (patches/fix-C16-status-tag-writers.diff); modelled as "the open IS the acquisition, the rename IS
+   the release": an open attempted while another writer holds the lock does nothing and the task
+   stops there (a blocked waiter is simply a task the scheduler does not run until the lock is free,
+   so every real execution is a model execution in which no attempt is refused; the refused attempts
+   are extra, harmless behaviours).  [repaired_code] (all three) is the code as it is now and the
+   model the check compares with; [original_code] is the tree before the repairs, kept for the
+   refutation lemmas.
 
    GHOST STATE (never read by the modelled code): [w_hist] the history of the flags and of the
    deadline stamps, [w_stale] "a SetProvisionFinished(true) sent by update_provision_state was
@@ -142,9 +149,12 @@ Inductive result :=
 | RDone
 | RQuery (fin : bool) (err : bytes) (q tk : Z) (fl : N) (la : bool).
 
-Record variant := { v_atomic : bool; v_guard : bool }.
-Definition current_code : variant := {| v_atomic := false; v_guard := false |}.
-Definition repaired_code : variant := {| v_atomic := true; v_guard := true |}.
+Record variant := { v_atomic : bool; v_guard : bool; v_lock : bool }.
+(* the pinned tree before the three C16 repairs (kept for the refutation lemmas) *)
+Definition original_code : variant := {| v_atomic := false; v_guard := false; v_lock := false |}.
+(* the code as it is now: /repo e68ce38 (atomic tick), b4d0508 (zero tick never finished),
+   3666d88 (writers of status.tag.tmp serialized) -- THE model the check compares the code with *)
+Definition repaired_code : variant := {| v_atomic := true; v_guard := true; v_lock := true |}.
 
 (* ------------------------------------------------------------------------------------------ *)
 (* the world                                                                                    *)
@@ -269,6 +279,9 @@ Section Handler.
     end.
 
   Definition h_open_tmp (tid : nat) (w : world) (t : Z) (content : bytes) : world * reply :=
+    if v_lock v && match w_owner w with Some _ => true | None => false end
+    then (w_time w t, RBool false)       (* the mutex is held by another writer *)
+    else
     let fs := w_fs w in
     let fd := f_next fs in
     let '(ino, next) := match f_tmp fs with Some i => (i, (fd + 1)%N) | None => ((fd + 1)%N, (fd + 2)%N) end in
@@ -376,7 +389,11 @@ Section Programs.
     Call FsCreateProvisioned (fun _ =>
     p_failed_msg (fun _ m =>
       let content := match m with [] => [] | _ => xml_escape m end in
-      Call (FsOpenTmp content) (fun r => p_write_loop (as_fd r) (length content) k))).
+      Call (FsOpenTmp content) (fun r =>
+        match r with
+        | RFd fd => p_write_loop fd (length content) k
+        | _ => Ret RDone          (* lock not obtained: see [v_lock] above *)
+        end))).
 
   (* provision.rs update_provision_state (redirector_ready / key_latched / listener_started) *)
   Definition p_update (f : N) : pprog :=
